@@ -377,10 +377,19 @@ def r6(ctx, cfg):
         # hasher.update(KEY)` - the feeding calls in execution order
         feeds = [(b0, t0) for b0, t0 in f.calls() if t0["callee"]["name"] in ("chain", "chain_update", "update") and len(t0["args"]) == 2]
         cf0 = cfg_of(f)
-        feeds.sort(key=lambda x: sum(1 for y in feeds if cf0.dominates(y[0], x[0])))
+        rank0 = {id(x): sum(1 for y in feeds if y is not x and cf0.dominates(y[0], x[0])) for x in feeds}
+        feeds.sort(key=lambda x: rank0[id(x)])
         parts = None
-        if len(feeds) == 2:
-            parts = pipeline.byte_parts(P, F, f, P.call_args(f, feeds[-1][1], feeds[-1][0])[1])
+        if len(feeds) >= 2:
+            # (the key may be fed in one piece or piece by piece - a streaming hash sees the same bytes: everything after the
+            #  first feed, the module digest, in order)
+            parts = []
+            for b1, t1 in feeds[1:]:
+                ps = pipeline.byte_parts(P, F, f, P.call_args(f, t1, b1)[1])
+                if ps is None:
+                    parts = None
+                    break
+                parts += ps
         ok = parts is not None and len(parts) == 3
         d = "?"
         if ok:
